@@ -62,4 +62,17 @@ theorem inv_unspent_onChain {c : Ctx} {s : Store} {chain : List Block} (hI : Inv
     obtain ⟨b, hb, ht, -⟩ := occ_block hoc
     exact (onChain_iff chain id).2 ⟨b, hb, oc.t, ht, hoid.trans hid⟩
 
+/-- BR3b: every owned output of a transaction of the tip block has a credit -/
+theorem inv_cb_credits {c : Ctx} {s : Store} {chain : List Block} {b : Block} (hI : Inv c s (chain ++ [b]))
+    (hV : ChainValid c.own (chain ++ [b])) :
+    ∀ u ∈ b.txs, ∀ j o, u.outs[j]? = some o → (ownerOf c.own o).isSome = true →
+      (AMap.get s.credits ⟨u.id, ⟨b.height, b.id⟩, j⟩).isSome = true := by
+  intro u hu j o ho hown
+  obtain ⟨oc, hoc, ht, hbm⟩ := occ_of_mem_block hu
+  have hmem : oc ∈ occs (chain ++ [b]) := mem_occs.2 ⟨b, by simp, hoc⟩
+  have := (glob_bookOf (p := c.p) hV).credAll oc hmem j o (by rw [ht]; exact ho) hown
+  rw [ht, hbm] at this
+  rw [hI.agree.credits]
+  exact this
+
 end MW.Lemmas.PendHist
